@@ -20,7 +20,7 @@ pub enum BLine { Exp(String), Code(String) }
 pub enum Elem {
     Front(usize), Prose(String), Heading(usize, String), Blank,
     Foreign(usize, String, Vec<String>, String),
-    Scrut { n: usize, cfg: Option<usize>, comments: Vec<String>, cmd: Option<(String, Vec<String>, Vec<BLine>)>, tail: String },
+    Scrut { n: usize, cfg: Option<usize>, hs: String, comments: Vec<String>, cmd: Option<(String, Vec<String>, Vec<BLine>)>, tail: String },
 }
 
 fn word(r: &mut Rng) -> String { r.pick(&["foo", "bar baz", "é ü", "x", "a  b", "hello world", "Straße", "日本", "Title here"]).to_string() }
@@ -76,7 +76,9 @@ pub fn gen_doc(r: &mut Rng) -> Vec<Elem> {
                     for i in 0..k { if !has_code && r.chance(1, 5) { has_code = true; body.push(BLine::Code(r.pick(&["0", "1", "3", "007", "255"]).to_string())); } else { body.push(body_line(r, i == 0, nb)); } }
                     Some((c, conts, body)) };
                 let tail = close_tail(r);
-                d.push(Elem::Scrut { n: nb, cfg, comments, cmd, tail });
+                // blanks after the language / the inline configuration on the opening line: ignored by the reader
+                let hs = if r.chance(1, 6) { r.pick(&[" ", "  ", "\t", " \t "]).to_string() } else { String::new() };
+                d.push(Elem::Scrut { n: nb, cfg, hs, comments, cmd, tail });
             }
         }
     }
@@ -89,8 +91,8 @@ pub fn render(d: &[Elem]) -> Vec<String> {
             Elem::Front(i) => { out.push("---".into()); for l in FRONTS[*i] { out.push(l.to_string()); } out.push("---".into()); }
             Elem::Prose(p) => out.push(p.clone()), Elem::Heading(k, t) => out.push(format!("{} {}", "#".repeat(*k), t)), Elem::Blank => out.push(String::new()),
             Elem::Foreign(n, lang, body, tail) => { out.push(format!("{}{}", "`".repeat(*n), lang)); for l in body { out.push(l.clone()); } out.push(format!("{}{}", "`".repeat(*n), tail)); }
-            Elem::Scrut { n, cfg, comments, cmd, tail } => {
-                out.push(format!("{}scrut{}", "`".repeat(*n), cfg.map_or(String::new(), |i| format!(" {{{}}}", CFGS[i]))));
+            Elem::Scrut { n, cfg, hs, comments, cmd, tail } => {
+                out.push(format!("{}scrut{}{}", "`".repeat(*n), cfg.map_or(String::new(), |i| format!(" {{{}}}", CFGS[i])), hs));
                 for c in comments { out.push(c.clone()); }
                 if let Some((c, conts, body)) = cmd {
                     out.push(format!("$ {}", c));
@@ -109,7 +111,7 @@ pub fn ser(d: &[Elem]) -> String {
     d.iter().map(|e| match e {
         Elem::Front(i) => format!("F{}", i), Elem::Prose(p) => format!("P{}", hex(p.as_bytes())), Elem::Heading(k, t) => format!("H{}{}", k, hex(t.as_bytes())), Elem::Blank => "B".to_string(),
         Elem::Foreign(n, lang, body, tail) => format!("V{}{}/{}/{}", n, hex(lang.as_bytes()), hx(body), hex(tail.as_bytes())),
-        Elem::Scrut { n, cfg, comments, cmd, tail } => format!("S{}{}/{}/{}/{}", n, cfg.map_or("-".to_string(), |i| i.to_string()), hx(comments),
+        Elem::Scrut { n, cfg, hs, comments, cmd, tail } => format!("S{}{}h{}/{}/{}/{}", n, cfg.map_or("-".to_string(), |i| i.to_string()), hex(hs.as_bytes()), hx(comments),
             match cmd { None => "~".to_string(), Some((c, conts, body)) => format!("{}{}/{}", hex(c.as_bytes()), conts.iter().map(|x| format!(",{}", hex(x.as_bytes()))).collect::<String>(),
                 if body.is_empty() { "_".to_string() } else { body.iter().map(|x| match x { BLine::Exp(e) => format!("E{}", hex(e.as_bytes())), BLine::Code(k) => format!("N{}", k) }).collect::<Vec<_>>().join(",") }) }, hex(tail.as_bytes())),
     }).collect::<Vec<_>>().join(";")
